@@ -61,6 +61,11 @@ def run_impl(case):
         except Exception as e:  # noqa
             obs['through_process'] = False
         after = set(path for path, _ in root.depth())
+        # a variable of the port that the rewiring did not name is still reached below the port's own path
+        try:
+            obs['other_var'] = pstore.get_path(('port', 'var_b')) is port_store.get_path(('var_b',))
+        except Exception as e:  # noqa
+            obs['other_var'] = f'{type(e).__name__}'
         obs['created'] = sorted(list(p) for p in after - before)
         # the item syntax with a bare key is the path of that one key — whatever the key (the empty string included)
         blank = here.create(('',), 7.0)
@@ -89,6 +94,9 @@ def oracle(case, impl):
                 f'port path, then path_to(target): {impl["expected"]})']
     if not impl['through_process']:
         return [f'connect: {who}: reading (port, var_a) through the process store does not give the target']
+    if impl.get('other_var') is not True:
+        return [f'connect: {who}: after rewiring var_a, (port, var_b) read through the process store is not the '
+                f'variable var_b of the port\'s store ({impl.get("other_var")})']
     if impl['created']:
         return [f'connect: {who}: stores {impl["created"]} were created']
     for k, (same, path) in impl.get('item', {}).items():
